@@ -488,4 +488,47 @@ theorem reads_partition_descriptor (k : Nat) : ∀ (s : List Char),
 
 example : readLines 2 "l1\nl2\nl3\n".toList = (["l1".toList, "l2".toList], "l3\n".toList) := by decide
 
+/-! ## the substitution's value does not depend on how the pipe happened to be read -/
+
+private theorem splitBy_flatten (sizes : List Nat) : ∀ s : List Byte, (splitBy sizes s).flatten = s := by
+  induction sizes with
+  | nil => intro s; simp [splitBy]
+  | cons n ns ih => intro s; simp [splitBy, ih, List.take_append_drop]
+
+/-- **The value of `$(cmd)` is independent of the chunking**: however the output is cut into reads
+(any sizes, any number), the reader returns the decoding of the whole output — in particular a
+multi-byte character that straddles a read boundary is decoded like any other. -/
+theorem chunks_concat_independent_of_chunking (decode : List Byte → Str) (sizes sizes' : List Nat)
+    (s : List Byte) :
+    readToEnd decode (splitBy sizes s) = decode s ∧
+    readToEnd decode (splitBy sizes s) = readToEnd decode (splitBy sizes' s) := by
+  simp [readToEnd, splitBy_flatten]
+
+/-- Decoding chunk by chunk is the same thing only for a decoder that distributes over
+concatenation (a bytewise one) … -/
+theorem chunkwise_ok_for_homomorphic_decoder (decode : List Byte → Str)
+    (hnil : decode [] = []) (hom : ∀ a b, decode (a ++ b) = decode a ++ decode b)
+    (chunks : List (List Byte)) : readChunkwise decode chunks = readToEnd decode chunks := by
+  induction chunks with
+  | nil => simp [readChunkwise, readToEnd, hnil]
+  | cons c cs ih =>
+    simp only [readChunkwise, readToEnd, List.map_cons, List.flatten_cons] at ih ⊢
+    rw [hom, ih]
+
+/-- a toy lossy decoder for a two-byte character `200 150`: anything incomplete becomes `?` -/
+private def lossyGo : Bool → List Byte → Str
+  | false, [] => []
+  | true, [] => ['?']
+  | false, a :: r => if a = 200 then lossyGo true r else (if a < 128 then Char.ofNat a else '?') :: lossyGo false r
+  | true, a :: r => if a = 150 then 'E' :: lossyGo false r else '?' :: '?' :: lossyGo false r
+
+/-- … and a lossy multi-byte decoder is not one: the same output read as one chunk or cut inside
+the character gives different values (the regression class "decode each read on its own"). -/
+theorem chunkwise_lossy_decoder_cex :
+    readToEnd (lossyGo false) (splitBy [0] [200, 150, 97]) = ['E', 'a'] ∧
+    readChunkwise (lossyGo false) (splitBy [0] [200, 150, 97]) ≠ readToEnd (lossyGo false) (splitBy [0] [200, 150, 97]) := by
+  decide
+
+example : splitBy [1, 0] [1, 2, 3, 4, 5] = [[1, 2], [3], [4, 5]] := by decide
+
 end BrushVerif.C11
